@@ -184,6 +184,11 @@ def run(ctx):
     emitted = [c["s"] for c in r.printed if len({(a["m"], a["alt"]) for a in c["s"]}) >= 2]
     if not ctx.thorough():
         emitted = rng.sample(emitted, min(len(emitted), 400))
+    r = tlc.run("MC_Conformations", "Gen_Conformations_his.cfg", workers=1, timeout=1800)
+    ctx.add_tlc(r, "input generator, point mutants whose ionizable groups sit on the same atom name (ASP/HIS)")
+    his = [c["s"] for c in r.printed if len({(a["m"], a["alt"]) for a in c["s"]}) >= 2
+           and len({a["resn"] for a in c["s"]}) == 2 and any(a["nm"] == "CG" for a in c["s"])]
+    emitted += his if ctx.thorough() else rng.sample(his, min(len(his), 150))
     inputs = [("gen-%d" % k, concretise(s)) for k, s in enumerate(emitted)]
     inputs += constructed(ctx)
     for n in ("conf-alt-AB", "conf-alt-AB-mutant", "conf-alt-BC", "conf-model-missing-atoms", "conf-model-mutant", "4DFR"):
